@@ -18,7 +18,9 @@ def srcPlaces (l : List (List Src)) : List Place := l.map (·.map Src.toPiece)
 
 
 /-- names of the documented deviations of the model (= the code) from the psABI that apply to a
-signature; `gen` selects generated code, otherwise the interpreter shim -/
+signature; `gen` selects generated code, otherwise the interpreter shim.  After the repairs of the
+long-double alignment (6f58eeff) and of va_block_arg (a84677ea) only the `va_start` expansion of
+generated code has documented deviations; anything else is `…-unexplained`. -/
 def diag (gen : Bool) (named tail : List PTy) (vararg : Bool) : List String := Id.run do
   let mut tags : List String := []
   let specNamed := sysvIncoming named
@@ -26,37 +28,24 @@ def diag (gen : Bool) (named tail : List PTy) (vararg : Bool) : List String := I
   let specTail := (sysvWalk sAfter tail).1
   if gen then
     if (calleePlace named).map (·.map MPiece.toPiece) != specNamed then
-      tags := tags ++ [if ldAligned .init named then "callee-place-unexplained" else "ld-after-odd-stack-words"]
+      tags := tags ++ ["callee-place-unexplained"]
     if vararg then
       let v := (vaStartGen named).toVaList
       if v.norm != sysvVaStart named then
         let t := if (named.filter isBlk).length > 0 then "va-start-block-param"
                  else if (named.filter isIntClass).length ≥ 6 then "va-start-six-named-ints"
                  else if (named.filter isFp).length > 8 then "va-start-nine-named-fp"
-                 else if !ldAligned .init named then "ld-after-odd-stack-words"
                  else "va-start-unexplained"
         tags := tags ++ [t]
       -- the fetch sequence is judged from the psABI state, the va_start deviation is tagged above
       if srcPlaces (vaArgWalk (sysvVaStart named) tail).1 != specTail then
-        let t := if (tail.filter isMixedBlk).length > 0 then "va-block-arg-mixed-class"
-                 else if !blkSafe sAfter tail then "va-block-arg-sse-exhausted"
-                 else if !ldAligned sAfter tail then "ld-after-odd-stack-words"
-                 else "va-walk-unexplained"
-        tags := tags ++ [t]
+        tags := tags ++ ["va-walk-unexplained"]
   else
     if shimPlace named != specNamed then
-      let t := if (named.filter isMixedBlk).length > 0 then "va-block-arg-mixed-class"
-               else if !blkSafe .init named then "va-block-arg-sse-exhausted"
-               else "shim-place-unexplained"
-      tags := tags ++ [t]
+      tags := tags ++ ["shim-place-unexplained"]
     if vararg then
-      let v := vaStartShim named
-      if srcPlaces (vaArgWalk v tail).1 != specTail then
-        let t := if ((named ++ tail).filter isMixedBlk).length > 0 then "va-block-arg-mixed-class"
-                 else if !blkSafe .init (named ++ tail) then "va-block-arg-sse-exhausted"
-                 else if !ldAligned sAfter tail then "ld-after-odd-stack-words"
-                 else "va-walk-unexplained"
-        tags := tags ++ [t]
+      if srcPlaces (vaArgWalk (vaStartShim named) tail).1 != specTail then
+        tags := tags ++ ["va-walk-unexplained"]
   return tags
 
 def frameLine (ws : List String) : String :=
